@@ -63,7 +63,7 @@ pub struct Runner {
     pub history: usize,
     pub line_no: usize,
     pub bsei_init_with_balances: bool,
-    pub saved: Option<(Chain, bool, bool, BTreeMap<Id, (Id, Id)>, Option<u128>, BTreeMap<u64, u64>, bool)>,
+    pub saved: Option<(Chain, bool, bool, BTreeMap<Id, (Id, Id)>, Option<u128>, BTreeMap<u64, u64>, bool, BTreeMap<(Id, Id, Id), String>)>,
     /// C10 ghost: (owner, nominee) per contract as the *history* of successful SetOwner /
     /// AcceptOwnership calls determines them, independent of what the contract stores
     pub ghost_roles: BTreeMap<Id, (Id, Id)>,
@@ -76,6 +76,9 @@ pub struct Runner {
     pub ghost_completion: BTreeMap<u64, u64>,
     /// E2 (chain unbonding time = hub unbonding_period) has held at every judged step so far
     pub e2_ok: bool,
+    /// C18 ghost: expiration of every allowance (token, owner, spender) as the owner's successful
+    /// Increase/DecreaseAllowance calls determine it (an omitted `expires` keeps the current one)
+    pub ghost_allow: BTreeMap<(Id, Id, Id), String>,
     /// E1 (magnitudes ≤ 10^18) has been left in this history
     pub e1_broken: bool,
     pub deep: bool,
@@ -99,6 +102,7 @@ impl Runner {
             ghost_recorded: None,
             ghost_completion: BTreeMap::new(),
             e2_ok: true,
+            ghost_allow: BTreeMap::new(),
             e1_broken: false,
             deep: std::env::var("KRP_DEEP").map(|v| v == "1").unwrap_or(false),
         }
@@ -120,17 +124,19 @@ impl Runner {
             self.ghost_recorded = None;
             self.ghost_completion.clear();
             self.e2_ok = true;
+            self.ghost_allow.clear();
             self.history += 1;
             self.bsei_init_with_balances = false;
             self.e1_broken = false;
             return "ok | reset".to_string();
         }
         if let Op::Save = op {
-            self.saved = Some((self.chain.clone(), self.envelope, self.bsei_init_with_balances, self.ghost_roles.clone(), self.ghost_recorded, self.ghost_completion.clone(), self.e2_ok));
+            self.saved = Some((self.chain.clone(), self.envelope, self.bsei_init_with_balances, self.ghost_roles.clone(), self.ghost_recorded, self.ghost_completion.clone(), self.e2_ok, self.ghost_allow.clone()));
             return "ok | save".to_string();
         }
         if let Op::Restore = op {
-            if let Some((c, e, b, g, gr, gc, e2)) = self.saved.clone() {
+            if let Some((c, e, b, g, gr, gc, e2, ga)) = self.saved.clone() {
+                self.ghost_allow = ga;
                 self.ghost_recorded = gr;
                 self.ghost_completion = gc;
                 self.e2_ok = e2;
@@ -258,6 +264,7 @@ impl Runner {
                 deep: self.deep,
                 ghost_recorded: self.ghost_recorded,
                 ghost_completion: ghost_completion.as_ref(),
+                ghost_allow: &self.ghost_allow,
                 envelope: self.envelope && !self.bsei_init_with_balances && !self.e1_broken && self.chain.withdraw_addr == DISP,
             };
             let cx_envelope = cx.envelope;
@@ -267,6 +274,42 @@ impl Runner {
                 }
             } else {
                 self.bump("ops_outside_e1");
+            }
+            // C18 ghost bookkeeping: allowance expirations from the history of the owner's calls
+            if r.ok {
+                if let Op::Tx { sender, target, call: Call::Tok(m), .. } = op {
+                    if *target == BSEI || *target == STSEI {
+                        match m {
+                            TokMsg::IncAllow(sp, _, e) | TokMsg::DecAllow(sp, _, e) => {
+                                let key = (*target, *sender, *sp);
+                                if self.chain.token_allowance(*target, *sender, *sp).is_none() {
+                                    self.ghost_allow.remove(&key);
+                                } else {
+                                    let es = match e {
+                                        Some(Exp::H(h)) => Some(format!("h{}", h)),
+                                        Some(Exp::T(t)) => Some(format!("t{}", t)),
+                                        Some(Exp::Never) => Some("n".to_string()),
+                                        None => None,
+                                    };
+                                    match es {
+                                        Some(x) => {
+                                            self.ghost_allow.insert(key, x);
+                                        }
+                                        None => {
+                                            self.ghost_allow.entry(key).or_insert_with(|| "n".to_string());
+                                        }
+                                    }
+                                }
+                            }
+                            TokMsg::TransferFrom(o, _, _) | TokMsg::SendFrom(o, _, _, _) | TokMsg::BurnFrom(o, _) => {
+                                if self.chain.token_allowance(*target, *o, *sender).is_none() {
+                                    self.ghost_allow.remove(&(*target, *o, *sender));
+                                }
+                            }
+                            _ => {}
+                        }
+                    }
+                }
             }
             // C15 ghost bookkeeping (bank history only)
             if !cx_envelope {
